@@ -86,6 +86,7 @@ Definition guard_C11 (b : bucket) (s e : qtime) : bool :=
   if b_var b then
     match var_candidates b (q_go s) (q_go e) with
     | Ok c => guard_trim (q_go s) (q_go e) c
+              && (Z.of_nat (length c) <=? maxInt32)   (* below the int32 row limit of trimResultsToLimit *)
     | _ => false               (* the second-stage buffer panic is C09's finding F4 *)
     end
   else true.
